@@ -14,4 +14,9 @@ CHECKS = {
         "text": "Decides on every path of hash_table.c the bookkeeping and link-surgery clauses a chained map needs: inuse changes exactly once per inserted / deleted key and never otherwise; the head slot refilled from its successor copies every field of hash_entry_t before the successor is released; no node is read after release and every release is preceded by its unlink; a head key is cleared only when its chain is empty; lookups compare length before bytes with the comparator of the table's case mode and hashing folds case in no-case mode; all eight public wrappers hash the key they pass on; the five traversals visit head iff key != NULL and then the whole chain, the iterator advancing exactly once per bucket. Does not decide map semantics over operation histories.",
         "design_ref": "DESIGN.md section 4, C20",
     },
+    "C19": {
+        "technique": "custom static analysis over clang AST+CFG facts: guard dominance of the table read, width writer/reader exhaustiveness over switch labels and element-pointer casts, branch symmetry under argument exchange, canonical-form comparison of inverse conversion pairs and of the two passes of the table builder",
+        "text": "Decides the structural clauses of logmath.c: every log-add table read is dominated by 0 <= d < table_size with d unchanged in between; the widths the initialiser can choose {1,2,4} are exactly the labels of all three width switches and each case accesses the table through an unsigned element pointer of that width, allocation count equals table_size; logmath_add is symmetric under exchanging its arguments (zero short-circuits mirrored and first, (d,r) = (x-y,x)/(y-x,y)); every result is r or r + unsigned entry; log() is guarded by p > 0; log/exp and ln/log10 conversions use matching constants and opposite shift directions; sizing and filling passes of the table builder compute the same value, decay and stop test. Accuracy to half a unit and the log 2 bound are numerical and not decided.",
+        "design_ref": "DESIGN.md section 4, C19",
+    },
 }
